@@ -462,6 +462,119 @@ LONG_SHORT = {
 }
 
 
+# function that sets file times -> header that declares it (POSIX.1-2008 <sys/stat.h>: futimens, utimensat; <sys/time.h>:
+# utimes, and by BSD/glibc convention futimes, futimesat; <utime.h>: utime; MSVCRT <sys/utime.h>: _futime)
+TIME_DECL = {"futimens": "sys/stat.h", "futimes": "sys/time.h", "futimesat": "sys/time.h", "utimes": "sys/time.h",
+             "_futime": "sys/utime.h", "utime": "utime.h"}
+
+
+def check_time_probe(ck, rule="C19-ATTR"):
+    """io_copy_attrs() keeps nanosecond timestamps only through futimens(); which function is used is decided by the
+    check_symbol_exists() probes in CMakeLists.txt.  A probe that does not include the header declaring the function fails
+    on every system, and xz silently falls back to the next, coarser function (futimes: microseconds).  The probes are
+    compared with the declaring headers, and they are tried from the finest to the coarsest."""
+    import os
+    import re
+    from .C20 import _override_path, REPO as _REPO
+    path = os.path.join(_REPO, "CMakeLists.txt")
+    cm = open(_override_path(path)).read()
+    found = []
+    for m in re.finditer(r"check_symbol_exists\(\s*(\w+)\s+\"([^\"]*)\"\s+(\w+)\s*\)", cm):
+        if m.group(1) in TIME_DECL:
+            found.append((m.group(1), m.group(2).split(";"), m.group(3), cm.count("\n", 0, m.start()) + 1))
+    if [f_[0] for f_ in found][:2] != ["futimens", "futimes"]:
+        raise AnalysisBroken("CMakeLists.txt: the probes for futimens/futimes were not found in that order (%s)" % [f_[0] for f_ in found])
+    for sym, hdrs, macro, line in found:
+        ok = TIME_DECL[sym] in hdrs and macro == "HAVE_" + sym.upper()
+        ck.ob(rule, "probe:%s" % sym, ok, "CMakeLists.txt:%d" % line,
+              "check_symbol_exists(%s \"%s\" %s)" % (sym, ";".join(hdrs), macro) if ok else
+              "CMakeLists.txt: the probe for %s() includes %s but %s() is declared in <%s> (result macro %s): the probe fails on every "
+              "system and xz falls back to a coarser function, so copied timestamps lose their sub-microsecond (or sub-second) part" % (
+                  sym, hdrs, sym, TIME_DECL[sym], macro), key="ATTR:probe:%s" % sym)
+
+
+def check_attr_last(ck, prog, rule="C19-ATTR"):
+    """The timestamps are copied with futimens() on the open descriptor; any later write to the file (the one byte that turns a
+    pending run of zeros into file size, io_close()) sets the modification time to "now" again.  In io_close() no path leads
+    from io_copy_attrs() to lseek()/io_write_buf()/write()."""
+    f = prog.fn("io_close", "file_io.c", target="xz")
+    ck.saw_function(f)
+    attr = [(b.id, i) for b, i, e in f.iter_elems() for c in ex.calls(e, into_refs=False) if c.get("fn") == "io_copy_attrs"]
+    wr = [(b.id, i, c.get("fn")) for b, i, e in f.iter_elems() for c in ex.calls(e, into_refs=False)
+          if c.get("fn") in ("io_write_buf", "write", "lseek", "ftruncate")]
+    if not attr or not wr:
+        raise AnalysisBroken("io_close: io_copy_attrs() / the write of the final sparse byte not found")
+    bad = None
+    for ab, ai in attr:
+        seen, st = set(), [y for y in f.blocks[ab].succs if y is not None]
+        for wb, wi, wn in wr:
+            if wb == ab and wi > ai:
+                bad = wn
+        while st and bad is None:
+            x = st.pop()
+            if x in seen:
+                continue
+            seen.add(x)
+            for wb, wi, wn in wr:
+                if wb == x:
+                    bad = wn
+            st.extend(y for y in f.blocks[x].succs if y is not None)
+    ck.ob(rule, "attrs-after-last-write", bad is None, common.where(f),
+          "io_close: io_copy_attrs() runs after the last write to the target" if bad is None else
+          "io_close(): %s() can run after io_copy_attrs(): when the data ends in a run of zeros the final byte is written after the "
+          "timestamps were copied, so the target gets the current time instead of the source's modification time" % bad,
+          key="ATTR:attrs-after-last-write")
+
+
+def check_skip_status(ck, prog, rule="C19-SKIPSTATUS"):
+    """A file that xz skips because of its name (already has the suffix, unknown suffix) makes the exit status 2: every
+    `return NULL` of compressed_name()/uncompressed_name() is preceded by message_warning()/message_error() -- directly or
+    through a helper of suffix.c that calls one of them on every path (msg_suffix).  message() alone prints but leaves the
+    status 0, so a script cannot tell that a file was left uncompressed."""
+    ck.rule(rule, "suffix.c: every refusal of a file name (return NULL) passes message_warning()/message_error()")
+    STATUS = {"message_warning", "message_error", "message_fatal"}
+
+    def via_of(names):
+        return lambda bb, ii, ee: any(c.get("fn") in names for c in ex.calls(ee, into_refs=False))
+    helpers = set()
+    called = {c.get("fn") for nm_ in ("compressed_name", "uncompressed_name")
+              for b, i, e in prog.fn(nm_, "suffix.c", target="xz").iter_elems() for c in ex.calls(e, into_refs=False)}
+    for nm, fs in prog.functions.items():
+        if nm not in called:
+            continue
+        for g in fs:
+            if g.blocks and g.file.endswith("xz/suffix.c") and g.ret == "void":
+                calls_any = any(c.get("fn") in STATUS | {"message"} for b, i, e in g.iter_elems() for c in ex.calls(e, into_refs=False))
+                if not calls_any:
+                    continue
+                ok, path = cfg.must_pass(g, [g.entry], [g.exit], via_of(STATUS))
+                ck.saw_function(g)
+                ck.ob(rule, g.name, ok, common.where(g),
+                      "%s(): message_warning()/message_error() on every path" % g.name if ok else
+                      "%s() reports the refusal with message() only (lines %s): the text is printed but set_exit_status(E_WARNING) "
+                      "is never called, so xz exits 0 although it skipped the file" % (g.name, cfg.path_lines(g, path)),
+                      key="SKIPSTATUS:%s" % g.name)
+                if ok:
+                    helpers.add(g.name)
+    n = 0
+    for nm in ("compressed_name", "uncompressed_name"):
+        f = prog.fn(nm, "suffix.c", target="xz")
+        ck.saw_function(f)
+        nulls = [b.id for b, i, e in f.iter_elems() if ex.deref(e).get("k") == "ret" and ex.deref(e).get("e") is not None
+                 and ex.const_val(ex.strip(ex.deref(e)["e"])) == 0]
+        if not nulls:
+            raise AnalysisBroken("%s: no `return NULL`" % nm)
+        n += len(nulls)
+        all_helpers = {g.name for fs in prog.functions.values() for g in fs if g.blocks and g.file.endswith("xz/suffix.c") and g.ret == "void"
+                       and g.name in called and any(c.get("fn") in STATUS | {"message"} for b, i, e in g.iter_elems() for c in ex.calls(e, into_refs=False))}
+        ok, path = cfg.must_pass(f, [f.entry], nulls, via_of(STATUS | all_helpers))
+        ck.ob(rule, nm, ok, common.where(f),
+              "%s: %d `return NULL` sites, each after a warning/error" % (nm, len(nulls)) if ok else
+              "%s() can return NULL (lines %s) without message_warning()/message_error(): the file is skipped silently and the "
+              "exit status stays 0" % (nm, cfg.path_lines(f, path)), key="SKIPSTATUS:%s" % nm)
+    ck.floor(rule, 3)
+
+
 def check_longopts(ck, prog):
     """The exit-status and keep/force/stdout clauses are stated for the options as documented: `--no-warn` is `-Q`
     (warnings do not change the exit status), `--keep` is `-k`, ...  The getopt_long() table must map each long option
@@ -497,7 +610,49 @@ def check_longopts(ck, prog):
               "scripts that spell options out rely on) is that of -%s" % (
                   nm, ("-" + chr(v)) if v is not None and 32 < v < 127 else v, short, nm, short), key="OPTMAP:--" + nm)
     ck.floor("C19-OPTMAP", 20)
+    check_longopts_enum(ck, prog, got_nodes=tab, rule="C19-OPTMAP")
     return n
+
+
+# enumerator of a long-only option -> its documented name, where the name is not the enumerator's own
+OPT_NAME_EXCEPT = {"OPT_MEM_COMPRESS": "memlimit-compress", "OPT_MEM_DECOMPRESS": "memlimit-decompress",
+                   "OPT_MEM_MT_DECOMPRESS": "memlimit-mt-decompress"}
+
+
+def check_longopts_enum(ck, prog, got_nodes=None, rule="C19-OPTMAP", only=None):
+    """Long-only options are dispatched through OPT_* enumerators named after the option: --no-sync is OPT_NO_SYNC, --no-sparse
+    is OPT_NO_SPARSE, ...  An entry whose name and enumerator disagree makes one documented option behave as another."""
+    f = prog.fn("parse_real", "args.c", target="xz")
+    ck.saw_function(f)
+    tab = got_nodes
+    if tab is None:
+        for b, i, e in f.iter_elems():
+            d = ex.deref(e)
+            if d.get("k") == "decl" and d.get("n") == "long_opts" and d.get("init") is not None:
+                tab = (ex.strip(d["init"]), e)
+    if tab is None or tab[0].get("k") != "init":
+        raise AnalysisBroken("parse_real: long_opts table not found")
+    n = 0
+    for x in tab[0]["e"]:
+        x = ex.strip(x)
+        if x is None or x.get("k") != "init" or not x.get("fields"):
+            continue
+        ent = dict(zip(x["fields"], x["e"]))
+        nm = ex.show(ex.strip(ent["name"])).strip('"')
+        v = ex.strip(ent["val"])
+        en = v.get("n") if v is not None and v.get("k") == "enum" else None
+        if not en or not en.startswith("OPT_"):
+            continue
+        if only is not None and nm not in only and en not in {"OPT_" + o.upper().replace("-", "_") for o in only}:
+            continue
+        n += 1
+        want = OPT_NAME_EXCEPT.get(en, en[4:].lower().replace("_", "-"))
+        ck.ob(rule, "--%s" % nm, nm == want, common.where(f, x),
+              "--%s -> %s" % (nm, en) if nm == want else
+              "parse_real(): the long option --%s is dispatched as %s, i.e. as --%s: `xz --%s` silently does what --%s does "
+              "(and not what --%s is documented to do)" % (nm, en, want, nm, want, nm), key="OPTMAP:--%s" % nm)
+    if n < (2 if only else 30):
+        raise AnalysisBroken("parse_real: only %d long-only options with OPT_* enumerators found" % n)
 
 
 def run(ck):
@@ -510,6 +665,7 @@ def run(ck):
                       "DOS/VMS branches (not compiled), O_EXCL/unlink rules are under C17-WHO.")
     prog = common.program(ck, ("xz",))
     check_suffix(ck, prog)
+    check_skip_status(ck, prog)
     check_suffix_boundary(ck, prog)
     # the timestamps copied from the source survive only if nothing writes to the target afterwards (C17-ORDER)
     from . import C17
@@ -518,4 +674,6 @@ def run(ck):
     check_src(ck, prog)
     check_attr(ck, prog)
     check_attr_branch(ck, prog)
+    check_attr_last(ck, prog)
+    check_time_probe(ck)
     check_keep(ck, prog)
